@@ -95,6 +95,8 @@ struct IOFileReader {
     // path, uuid
     files: HashMap<uuid::Uuid, (String, String)>,
     base_file: Option<uuid::Uuid>,
+    // included file -> the file that includes it
+    parents: HashMap<uuid::Uuid, uuid::Uuid>,
 }
 
 #[derive(Debug)]
@@ -116,6 +118,7 @@ impl IOFileReader {
         IOFileReader {
             files: HashMap::new(),
             base_file: None,
+            parents: HashMap::new(),
         }
     }
     #[cfg(feature = "fixes")]
@@ -266,6 +269,24 @@ impl FileReader for IOFileReader {
                 .to_owned()
         };
 
+        // A file that is included by itself, or by a file it includes
+        // (directly or not), would be included for ever. The same file may
+        // still be included several times from different places.
+        let is_same_file =
+            |a: &str, b: &str| match (std::fs::canonicalize(a), std::fs::canonicalize(b)) {
+                (Ok(a), Ok(b)) => a == b,
+                _ => a == b,
+            };
+        let mut ancestor = parent_file;
+        while let Some(id) = ancestor {
+            if let Some((ancestor_path, _)) = self.files.get(&id) {
+                if is_same_file(ancestor_path, &path) {
+                    return Err(FileReaderError::FileAlreadyRead(path));
+                }
+            }
+            ancestor = self.parents.get(&id).copied();
+        }
+
         // open file and read it
         let file = match std::fs::read_to_string(path.clone()) {
             Ok(file) => file,
@@ -275,12 +296,9 @@ impl FileReader for IOFileReader {
         // store full path to file
         let uuid = uuid::Uuid::new_v4();
         self.base_file.get_or_insert(uuid);
-        if self
-            .files
-            .insert(uuid, (path.clone(), file.clone()))
-            .is_some()
-        {
-            return Err(FileReaderError::FileAlreadyRead(path));
+        self.files.insert(uuid, (path.clone(), file.clone()));
+        if let Some(parent) = parent_file {
+            self.parents.insert(uuid, parent);
         }
 
         Ok((uuid, file))
